@@ -20,11 +20,20 @@ def run(c):
     by.update({("pebad", s["sc"]): s for s in scen})
     nrel = len(scen)
     # (2) degenerate signature shapes from the symbolic space (no / empty signed attributes, missing attributes, two signers)
-    lines = [l for l in c04.sym_cases(c, "signature-shapes") if '"img":"-"' in l and '"cert":"A"' in l and
+    allsym = c04.sym_cases(c, "signature-shapes")
+    lines = [l for l in allsym if '"img":"-"' in l and '"cert":"A"' in l and
              ('"attrs":"none"' in l or '"attrs":"empty"' in l or '"md":"absent"' in l or '"ctattr":"absent"' in l)]
     if c.quick:
         lines = lines[::5]
     sscen = [(i, '{"sc":%d,' % i + l[1:]) for i, l in enumerate(lines)]
+    # ... and genuine signatures (by the verifying certificate's key, and by another) whose digestEncryptionAlgorithm label - a field outside
+    # the signed bytes - names another well-known algorithm
+    hon = [l for l in allsym if '"img":"-"' in l and '"cert":"A"' in l and '"expect":"must"' in l][:3] + \
+          [l for l in allsym if '"img":"-"' in l and '"cert":"B"' in l and '"expect":"must"' in l][:1]
+    for l in hon:
+        for enc in ("sha256WithRSA", "rsassa-pss", "sha1WithRSA", "ecdsa-sha256", "ecdsa-sha384", "ecPublicKey", "ed25519", "dsa-sha256", "sm2-sm3", "sha256"):
+            k = len(sscen)
+            sscen.append((k, '{"sc":%d,"enc":"%s",' % (k, enc) + l[1:]))
     hand = ["30", "3000", "3080", "308400000000", "30820400" + "00" * 8, "3003020101", "300b06092a864886f70d010702", "300f06092a864886f70d010702a0023000",
             "3081" + "ff" + "00" * 16, "a0", "06092a864886f70d010702"]
     sscen += [(10 ** 6 + i, json.dumps({"sc": 10 ** 6 + i, "hex": h})) for i, h in enumerate(hand)]
